@@ -188,6 +188,7 @@ func diffMain(x *X) {
 	x.queryOracles(o, op, st)
 	x.R.Brief = o.Brief()
 	ref := RefQuery(op, c.Data, op.Eng.LookbackMs)
+	x.R.Brief += " || reference: " + ref.Brief()
 	prop := c.Prop
 	if _, ok := profileOfDiff[prop]; !ok {
 		prop = "C01" // the case was generated for another property's check (C18, C19, ...)
